@@ -131,7 +131,11 @@ def cursor_expect_leg(ctx):
         path = os.path.join(tmpd, "want%d.png" % si)
         want.save(path)
         done = []
-        c.expectScreen(path, 0).addBoth(done.append)
+        res = c.expectScreen(path, 0)
+        if hasattr(res, "addBoth"):
+            res.addBoth(done.append)
+        else:
+            done.append(res)              # expectScreen returns the client itself when the screen already matches
         early = bool(done)
         cur = enc_cursor(r, pf, 0, 0, cw, ch)
         cur.body = b"".join(pixel_bytes(pf, b) for _ in range(cw * ch)) + b"\xff" * (((cw + 7) // 8) * ch)
